@@ -405,3 +405,11 @@ def install_clock():
     frappy.modulebase.time = CLOCK
     frappy.protocol.dispatcher.currenttime = CLOCK.time
     return CLOCK
+
+
+# a small module configured with export=False next to the module under test
+HIDDEN_SHAPE = {
+    'name': 'GH', 'base': 'Drivable', 'features': [],
+    'levels': [{'params': [P('target', D010, 'rw_write', inherit=True), P('hp', I09, 'rw_write'),
+                           P('hc', I09, 'rw_write', export='hcustom')],
+                'commands': [C('hcmd', I09), C('go')]}]}
